@@ -48,10 +48,16 @@ _BOOM = {"calls": 0}
 
 
 def _boom(*a, **k):
-    """scripted model3d updatefunc: valid at assignment (it is probed once there), fails at show time"""
+    """scripted model3d updatefunc: valid whenever the style machinery probes it (assignment, update,
+    copy), fails when it is called while the object's traces are being drawn"""
+    import sys
+
     _BOOM["calls"] += 1
-    if _BOOM["calls"] > 1:
-        raise RuntimeError("scripted updatefunc failure")
+    f = sys._getframe(1)
+    while f is not None:
+        if f.f_code.co_name == "get_generic_traces3D":
+            raise RuntimeError("scripted updatefunc failure at draw time")
+        f = f.f_back
     return {}
 
 
